@@ -205,15 +205,25 @@ class CallsMixin(ExecBase):
         return any(isinstance(x, ast.Call) and isinstance(x.func, ast.Name) and x.func.id == nm for x in ast.walk(fref.node))
 
     def call_rec(self, fref, bound, st, node):
+        """Recursive spec function -> z3 RecFunction.  Parameter / return annotations (int, str, bool, list, dict) select
+        the payload sorts, so that e.g. `-> list` results are lists without an inductive argument."""
         key = fref.qual
         formals = [a.arg for a in fref.node.args.args]
+        SORTS = {"int": ("i", IntS), "str": ("s", StrS), "bool": ("b", BoolS), "list": ("l", ListS), "dict": ("d", DictS)}
+
+        def ann(a):
+            return SORTS.get(a.id) if isinstance(a, ast.Name) else None
+        ptags = [ann(a.annotation) for a in fref.node.args.args]
+        rtag = ann(fref.node.returns)
         ent = CallsMixin._REC.get(key)
         if ent is None:
-            f = z3.RecFunction("spec." + fref.node.name, *([Any] * len(formals)), Any)
+            dom = [(pt[1] if pt else Any) for pt in ptags]
+            rng = rtag[1] if rtag else Any
+            f = z3.RecFunction("spec." + fref.node.name, *dom, rng)
             CallsMixin._REC[key] = ent = {"f": f, "defined": False}
-            params = [z3.Const(f"p!{fref.node.name}!{a}", Any) for a in formals]
+            params = [z3.Const(f"p!{fref.node.name}!{a}", srt) for a, srt in zip(formals, dom)]
             sub = State()
-            sub.vars = {a: from_any(p) for a, p in zip(formals, params)}
+            sub.vars = {a: (Val(pt[0], p) if pt else from_any(p)) for a, p, pt in zip(formals, params, ptags)}
             saved = (self.mod, self.cls, self.guards, self.pending, self.old_state)
             self.mod, self.cls, self.guards, self.pending, self.old_state = fref.mod, None, [], [], None
             self.depth += 1
@@ -222,17 +232,22 @@ class CallsMixin(ExecBase):
             finally:
                 self.mod, self.cls, self.guards, self.pending, self.old_state = saved
                 self.depth -= 1
-            body = fresh("undef", Any)
+            body = fresh("undef", rng)
             for o in reversed(outs):
                 if o.sig != "return":
                     continue
                 cond = z3.And(*o.state.pc) if o.state.pc else z3.BoolVal(True)
-                body = z3.If(cond, self.as_val(o.payload, o.state, node).any(), body)
+                rv = self.as_val(o.payload, o.state, node)
+                body = z3.If(cond, rv.payload(rtag[0]) if rtag else rv.any(), body)
             z3.RecAddDefinition(f, params, body)
             ent["defined"] = True
         f = ent["f"]
-        actuals = [self.as_val(bound[a], st, node).any() for a in formals]
-        return from_any(f(*actuals))
+        actuals = []
+        for a, pt in zip(formals, ptags):
+            v = self.as_val(bound[a], st, node)
+            actuals.append(self.need(v, pt[0], st, node) if pt else v.any())
+        r = f(*actuals)
+        return Val(rtag[0], r) if rtag else from_any(r)
 
     def inline(self, fref: FuncRef, bound, st: State, node):
         """Execute the real body of the callee in place; all normal exits are merged into one result."""
@@ -429,6 +444,11 @@ class CallsMixin(ExecBase):
     def apply_contract(self, c: Contract, bound, st: State, node, qual):
         """Modular call: assert requires, havoc modifies, assume ensures (or take the exceptional exit)."""
         ln = getattr(node, "lineno", 0)
+        for _src, gname in c.opts.get("iter_source", {}).items():
+            gv = st.vars.get("__ghost_" + gname)
+            if gv is not None and gname not in bound:
+                bound = dict(bound)
+                bound[gname] = gv  # the callee's ghost input sequence is the caller's same-named source
         cs = getattr(self, "call_sites", None)
         if cs is None:
             cs = self.call_sites = {}
@@ -462,6 +482,8 @@ class CallsMixin(ExecBase):
             self.havoc_path(path, bound, st, node)
         # result
         rk = c.opts.get("returns")
+        if c.opts.get("generator"):
+            rk = "list"  # calling a generator function: the result stands for the sequence it yields
         if rk in ("dict", "list", "set"):
             tag = {"dict": "d", "list": "l", "set": "st"}[rk]
             res = st.new(Cell(rk, val=Val(tag, fresh("ret_" + qual.split(":")[-1].replace(".", "_"), {"d": DictS, "l": ListS, "st": SetS}[tag]))))
@@ -491,8 +513,16 @@ class CallsMixin(ExecBase):
                 rs.assume(self.eval_clause(cl, bound, rs, pre, {"exc": ex}))
             self.pending.append(Outcome("raise", rs, ex, node))
             self.assume(st, z3.Not(flag))
+        extra = {"result": res}
+        if c.opts.get("generator"):
+            extra["yielded"] = res
+            for _src, gname in c.opts.get("iter_source", {}).items():
+                # the callee's ghost input sequence is whatever the caller's same-named source yields
+                gv = st.vars.get("__ghost_" + gname)
+                if gv is not None:
+                    extra[gname] = gv
         for cl in c.ensures_:
-            self.assume(st, self.eval_clause(cl, bound, st, pre, {"result": res}))
+            self.assume(st, self.eval_clause(cl, dict(bound, **{k: v for k, v in extra.items() if k not in ("result", "yielded")}), st, pre, extra))
         return res
 
     def havoc_path(self, path, bound, st, node):
